@@ -10,6 +10,8 @@
    Bytes are N, strings are list N, offsets are N, object ids / generations are Z (int in the code).
    No proofs here. Names are prefixed rc_/K/Tt/Ev because extraction flattens the name space.
 
+   Follows /repo up to dd6235ea (4591eb6f free entries after the section, d14d2a78 warning for generation >= 65535,
+   dd6235ea comment at end of input gives tt_eof).
    What is NOT modelled (and is therefore only covered by the twin comparison of harness/c08.py, not by the
    theorems): the object parser (trailer dictionaries and the /Type /Catalog test use the strict specification
    parser StrictSyntax.parse_obj, which agrees with qpdf's parser on intact dictionaries), cross-reference
@@ -178,7 +180,7 @@ Definition rc_present_eof (m : rc_tk) : rc_tk :=
       let m2 := if k_in m1 then k_push m1 12 else m1 in
       k_in_set (k_to m2 KReady) true
   | KBefore => k_done m TtEof
-  | KComment => k_done m TtBad
+  | KComment => k_done m TtEof      (* /repo dd6235ea: a comment ended by the end of input is followed by end of input *)
   | KReady => m
   | _ => k_done m TtBad
   end.
@@ -502,7 +504,11 @@ Definition rc_x_insert (maxid : Z) (st : rc_xstate) (i : Z) (e_f1 : N) (e_f2 : Z
   if ty =? 102 then
     (* free_entries.emplace_back(i, f2) *)
     mkX (x_table st) (x_deleted st) (x_warn st || w) ((i, e_f2) :: x_free st)
-  else mkX (rc_insert maxid (x_deleted st) i e_f2 e_f1 (x_table st)) (x_deleted st) (x_warn st || w) (x_free st).
+  else
+    (* /repo d14d2a78: read_xrefTable warns about an in-use entry whose generation insertXrefEntry will reject
+       ("ignoring in-use entry with invalid generation"); the entry is still dropped *)
+    mkX (rc_insert maxid (x_deleted st) i e_f2 e_f1 (x_table st)) (x_deleted st)
+        (x_warn st || w || (65535 <=? e_f2)%Z) (x_free st).
 
 (* "for (auto const& og: free_entries) insertFreeXrefEntry(og)" at the end of read_xrefTable; x_free is in
    reverse order of appearance *)
